@@ -26,7 +26,7 @@ from vlib.shrink import shrink_seq
 
 ID = "C05"
 LEVEL = "fault_enumeration"
-BUDGET = {"quick": 200, "thorough": 1200}
+BUDGET = {"quick": 300, "thorough": 1200}
 RULE = (
     "case = (parser variant, generated well-formed token list, 1-3 token-level "
     "faults from {delete, duplicate, swap, replace-by-vocabulary-token, truncate, "
@@ -213,7 +213,28 @@ CLASS_CFGS = {
 }
 
 
-def judge(d, toks, classes=None):
+STREAM_PREFIX = [("zz", "word", None), ("=", "eq", None),
+                 ("a\u00e9b", "word", ("str", "a\u00e9b"))]
+
+
+def _stream_data(text, via):
+    """The text (which begins with the assignment STREAM_PREFIX) behind 8 kB of comment,
+    so that the two-byte character of that assignment's value lies across byte 8192 -
+    the size of the blocks a file is read in - or just before it.  (The character stands
+    in a bare word: a text that ended just before it would be a label of its own.)"""
+    delta = {"stream": -1, "stream-before": -2, "stream+data": -1}[via]
+    assert text.startswith("zz = a\u00e9b")
+    head = "/* "
+    tailc = " */ "
+    fill = 8192 + delta - len((head + tailc + "zz = a").encode())
+    data = (head + "p" * fill + tailc + text).encode("utf-8")
+    assert data[8192 + delta:8192 + delta + 2] == "\u00e9".encode()
+    if via == "stream+data":
+        data += b"\n\xff\xfe\x00"
+    return data
+
+
+def judge(d, toks, classes=None, via=None):
     """Returns (verdict, signature|None, detail) for one faulted token list.
     *classes*: a key of CLASS_CFGS - only 'ill-formed must be rejected' is judged then
     (the tree comparison tells groups from objects by their class)."""
@@ -227,7 +248,12 @@ def judge(d, toks, classes=None):
     else:
         p = budget_parser(d)
     try:
-        m = p.parse(text)
+        if via:
+            import io
+            import pvl
+            m = pvl.load(io.BytesIO(_stream_data(text, via)), parser=p)
+        else:
+            m = p.parse(text)
         outcome = "module"
     except BudgetExceeded:
         return ("foreign", None, "spins")
@@ -241,8 +267,9 @@ def judge(d, toks, classes=None):
         if outcome == "raised":
             return ("ill-rejected", None, rec[1])
         got = nm.canon(m)
-        return ("fail", f"C05/{fam}/accepted/{rec[1]}",
-                f"{d}{' with container classes ' + classes if classes else ''}: "
+        return ("fail", f"C05/{fam}{'/via-' + via if via else ''}/accepted/{rec[1]}",
+                f"{d}{' with container classes ' + classes if classes else ''}"
+                f"{' handed over as a binary stream (' + via + ')' if via else ''}: "
                 f"ill-formed ({rec[1]} at token {rec[2]}) but a module was "
                 f"returned: {got!r}; text={text!r}")
     # well-formed
@@ -253,7 +280,7 @@ def judge(d, toks, classes=None):
     got = nm.canon(m)
     dd = nm.diff(rec[1], got)
     if dd is not None:
-        return ("fail", f"C05/{fam}/altered",
+        return ("fail", f"C05/{fam}{'/via-' + via if via else ''}/altered",
                 f"{d}: well-formed text, loader returned a different tree at "
                 f"{dd[0]}: expected {dd[1]!r} got {dd[2]!r}; text={text!r}")
     return ("wellformed-ok", None, "")
@@ -396,6 +423,33 @@ def single_faults(acc, d):
                     acc.fail(sig, case, detail)
 
 
+def stream_faults(acc, d):
+    """The single faults again, the text arriving through pvl.load() as a binary stream
+    (what reading a product file amounts to) behind 8 kB of comment."""
+    for base in _base_documents():
+        n = len(base)
+        faults = []
+        for i in range(n):
+            faults += [("delete", i), ("truncate", i), ("badunits", i), ("unclose", i),
+                       ("unclose-quote", i), ("wrong-end", i), ("open-comment", i, 0),
+                       ("replace", i, i % len(PUNCT))]
+        for f in faults:
+            toks = [tuple(t) for t in STREAM_PREFIX] + apply_faults(base, [f])
+            for via in ("stream", "stream+data", "stream-before"):
+                if acc.expired():
+                    acc.notes["budget_exhausted"] = 1
+                    return
+                v, sig, detail = judge(d, toks, via=via)
+                acc.event(f"stream:{v}")
+                if v == "ambiguous":
+                    continue
+                acc.case(key=d + "\0" + via + "\0" + render(toks),
+                         nontrivial=v in ("ill-rejected", "fail"))
+                if v == "fail":
+                    acc.fail(sig, dict(dialect=d, tokens=[list(t) for t in toks],
+                                       via=via), detail)
+
+
 def _small_documents():
     T = gt.T
     EQ, SC = T("=", "eq"), T(";", "semi")
@@ -454,6 +508,7 @@ def shards(tier, seed):
     out = [("random_cases", dict(d=PARSERS[j % 6], n=n, seed=seed * 1000 + j))
            for j in range(18)]
     out += [("single_faults", dict(d=d)) for d in PARSERS]
+    out += [("stream_faults", dict(d=d)) for d in ("PVL", "ISIS", "ISISv", "default")]
     for d in ("default", "ISISv", "PVL") if tier == "quick" else PARSERS:
         out += [("double_faults", dict(d=d, doc=k))
                 for k in range(len(_small_documents()))]
@@ -489,14 +544,14 @@ def _tok(t):
 
 def replay(case):
     toks = [_tok(t) for t in case["tokens"]]
-    v, sig, detail = judge(case["dialect"], toks, case.get("classes"))
+    v, sig, detail = judge(case["dialect"], toks, case.get("classes"), case.get("via"))
     if v == "fail":
         return (sig, detail)
     return None
 
 
 def shrink(case, still_fails):
-    extra = {"classes": case["classes"]} if case.get("classes") else {}
+    extra = {k: case[k] for k in ("classes", "via") if case.get(k)}
     toks = shrink_seq(case["tokens"], lambda ts: still_fails(
         dict(dialect=case["dialect"], tokens=ts, **extra)))
     return dict(dialect=case["dialect"], tokens=toks, **extra)
